@@ -5,7 +5,7 @@ import PersimVerif.Model.Plot
 
   `plot.dgms <single T|F> <dgms> <plot_only|none> <title|none> <xy_range|none> <labels> <diagonal> <lifetime> <legend> [old]`
       `<labels>` = `none` | a string token | a list of string tokens
-  `plot.match <bn|ws|bnold|wsold> <c> <s> <dgm1> <dgm2> <rows [[i,j,d],…]> <labels>`
+  `plot.match <bn|ws|bnold|wsold> <c> <s> <dgm1> <dgm2> <rows [[i,j,d],…]> <labels>`   (deaths may be `inf`)
   `plot.land.exact <critical pairs per depth> <depth_range|none>`
   `plot.land.approx <start> <stop> <values per depth> <depth_range|none>`
 
@@ -89,6 +89,13 @@ def row? : Val → Option (Row Rat)
   | .list [i, j, d] => do pure (← asInt? i, ← asInt? j, ← asRat? d)
   | _ => none
 
+/-- a diagram with finite births and deaths that may be `inf` -/
+def optDgm? (v : Val) : Option (Dgm Rat) := do
+  let d ← dgmOf? optRat? v
+  d.mapM fun p => match p.1 with
+    | some b => some (b, p.2)
+    | none => none
+
 def dgmsOp (old : Bool) (sg ds po ti xy lb dg lf lg : Val) : Option Val := do
   let single ← asBool? sg
   let dgms ← listOf? (dgmOf? optRat?) ds
@@ -116,8 +123,8 @@ def handle : Handler
   | "plot.match", [.str kind, c, s, d1, d2, rows, lb] => do
     let c ← asRat? c
     let s ← asRat? s
-    let d1 ← ratDgm? d1
-    let d2 ← ratDgm? d2
+    let d1 ← optDgm? d1
+    let d2 ← optDgm? d2
     let rows ← listOf? row? rows
     let lb ← listOf? asStr? lb
     match kind with
